@@ -29,14 +29,16 @@ import (
 // ---- C30: run-and-wait with scripted engine outcomes ----
 
 type lambdaShape struct {
-	Nodes    int              `json:"nodes"`
-	Count    int              `json:"count"`
-	Stdin    bool             `json:"stdin"`
-	Prior    int              `json:"prior"`
-	Scripts  map[int]ctScript `json:"scripts"`             // by ERU_WORKLOAD_SEQ
-	RPC      string           `json:"rpc,omitempty"`       // "" = Calcium.RunAndWait directly; "sync" / "async" = through the gRPC handler rpc.Vibranium.RunAndWait
-	SendFail int              `json:"send_fail,omitempty"` // rpc sync: stream.Send fails from the k-th output message on (k >= 1; 0 = never): the client is gone
-	Cancel   string           `json:"cancel,omitempty"`    // count 1 only: the CALLER's context is cancelled when the engine is asked for "logs" / "wait"
+	Nodes      int              `json:"nodes"`
+	Count      int              `json:"count"`
+	Stdin      bool             `json:"stdin"`
+	Prior      int              `json:"prior"`
+	Scripts    map[int]ctScript `json:"scripts"`             // by ERU_WORKLOAD_SEQ
+	RPC        string           `json:"rpc,omitempty"`       // "" = Calcium.RunAndWait directly; "sync" / "async" = through the gRPC handler rpc.Vibranium.RunAndWait
+	SendFail   int              `json:"send_fail,omitempty"` // rpc sync: stream.Send fails from the k-th output message on (k >= 1; 0 = never): the client is gone
+	DeadlineMs int              `json:"deadline_ms,omitempty"`
+	StdinOpen  bool             `json:"stdin_open,omitempty"`
+	Cancel     string           `json:"cancel,omitempty"` // count 1 only: the CALLER's context is cancelled when the engine is asked for "logs" / "wait"
 }
 
 type createJ struct {
@@ -122,9 +124,18 @@ func runLambda(t *testing.T, sh lambdaShape, id, tag string) *lambdaCase {
 	opts.OpenStdin = sh.Stdin
 	opts.Entrypoint.Commands = []string{"true"}
 	inCh := make(chan []byte)
-	close(inCh)
+	inOpen := sh.Stdin && sh.StdinOpen
+	if !inOpen {
+		close(inCh)
+	} else {
+		defer close(inCh) // the client only lets go of stdin when the call is over
+	}
 	ctx, cancel := context.WithCancel(cl.Ctx())
 	defer cancel()
+	if sh.DeadlineMs > 0 {
+		ctx, cancel = context.WithTimeout(cl.Ctx(), time.Duration(sh.DeadlineMs)*time.Millisecond)
+		defer cancel()
+	}
 	if sh.Cancel != "" {
 		hub.onCall = func(kind string) {
 			if kind == sh.Cancel {
@@ -178,8 +189,13 @@ func runLambda(t *testing.T, sh lambdaShape, id, tag string) *lambdaCase {
 	} else {
 		// through the real gRPC handler with a scripted server stream
 		raw, _ := json.Marshal(map[string]any{"memory-request": int64(1 << 30), "cpu-request": 1.0, "cpu-bind": true})
-		st := &fakeRunStream{ctx: ctx, failFrom: sh.SendFail, first: &pb.RunAndWaitOptions{Async: sh.RPC == "async", DeployOptions: &pb.DeployOptions{
-			Name: "lam", Entrypoint: &pb.EntrypointOptions{Name: "run", Commands: []string{"true"}}, Podname: pod, Image: "img", Count: int32(sh.Count),
+		asyncTimeout := int32(0)
+		if sh.DeadlineMs > 0 && sh.RPC == "async" {
+			asyncTimeout = 1 // seconds: the async request's own time budget
+		}
+		st := &fakeRunStream{ctx: ctx, failFrom: sh.SendFail, stdinOpen: inOpen, closeIn: make(chan struct{}), first: &pb.RunAndWaitOptions{Async: sh.RPC == "async", AsyncTimeout: asyncTimeout, DeployOptions: &pb.DeployOptions{
+			OpenStdin: sh.Stdin,
+			Name:      "lam", Entrypoint: &pb.EntrypointOptions{Name: "run", Commands: []string{"true"}}, Podname: pod, Image: "img", Count: int32(sh.Count),
 			DeployStrategy: pb.DeployOptions_AUTO, IgnorePull: true, Resources: map[string][]byte{"cpumem": raw}}}}
 		v := rpc.New(cl.C, cl.Cfg, make(chan struct{}))
 		ret := make(chan error, 1)
@@ -190,6 +206,7 @@ func runLambda(t *testing.T, sh lambdaShape, id, tag string) *lambdaCase {
 			returned = true
 		case <-time.After(15 * time.Second):
 		}
+		defer close(st.closeIn)
 		if returned { // all tasks of the handler (incl. the async forwarder) finished?
 			fin := make(chan struct{})
 			go func() { v.Wait(); close(fin) }()
@@ -264,13 +281,15 @@ func runLambda(t *testing.T, sh lambdaShape, id, tag string) *lambdaCase {
 // (it fails from the failFrom-th output message on: the client has gone away).
 type fakeRunStream struct {
 	grpc.ServerStream
-	ctx      context.Context
-	first    *pb.RunAndWaitOptions
-	failFrom int
-	mu       sync.Mutex
-	recvd    bool
-	nOut     int
-	got      []*pb.AttachWorkloadMessage // every message the handler tried to send
+	ctx       context.Context
+	first     *pb.RunAndWaitOptions
+	failFrom  int
+	stdinOpen bool // the client sends nothing more but keeps its side open until closeIn
+	closeIn   chan struct{}
+	mu        sync.Mutex
+	recvd     bool
+	nOut      int
+	got       []*pb.AttachWorkloadMessage // every message the handler tried to send
 }
 
 func (f *fakeRunStream) Context() context.Context { return f.ctx }
@@ -280,6 +299,11 @@ func (f *fakeRunStream) Recv() (*pb.RunAndWaitOptions, error) {
 	if !f.recvd {
 		f.recvd = true
 		return f.first, nil
+	}
+	if f.stdinOpen {
+		f.mu.Unlock()
+		<-f.closeIn
+		f.mu.Lock()
 	}
 	return nil, io.EOF
 }
@@ -328,6 +352,16 @@ func lambdaCorpus() []lambdaShape {
 		{Nodes: 2, Count: 3, Prior: 1, RPC: "sync", SendFail: 2, Scripts: map[int]ctScript{0: {Lines: 2, Code: 1}, 1: {Lines: 0, Code: 0}, 2: {Lines: 3, WaitFail: true}}},
 		{Nodes: 1, Count: 2, RPC: "sync", Scripts: map[int]ctScript{0: {Lines: 1, Code: 0}, 1: {Lines: 2, Code: 7}}},
 		{Nodes: 1, Count: 2, RPC: "async", Scripts: map[int]ctScript{0: {Lines: 2, Code: 0}, 1: {Lines: 1, Code: 3}}},
+		// the request's DEADLINE passes while the workload is still running (not a cancel)
+		{Nodes: 1, Count: 1, Prior: 1, DeadlineMs: 700, Scripts: map[int]ctScript{0: {Lines: 2, Code: 4, WaitDelayMs: 1100}}},
+		{Nodes: 1, Count: 1, RPC: "async", DeadlineMs: 1000, Scripts: map[int]ctScript{0: {Lines: 1, Code: 0, WaitDelayMs: 1600}}},
+		{Nodes: 1, Count: 1, RPC: "sync", DeadlineMs: 700, Scripts: map[int]ctScript{0: {Lines: 1, Code: 2, WaitDelayMs: 1100}}},
+		// stdin: the process exits while the client still has stdin open / after it closed stdin
+		{Nodes: 1, Count: 1, Stdin: true, StdinOpen: true, Scripts: map[int]ctScript{0: {Lines: 3, Code: 0}}},
+		{Nodes: 1, Count: 1, Stdin: true, StdinOpen: true, RPC: "sync", Scripts: map[int]ctScript{0: {Lines: 2, Code: 5}}},
+		// more than 64 KiB of output without a newline (raw byte mode), through the async and the sync handler
+		{Nodes: 1, Count: 1, Stdin: true, RPC: "async", Scripts: map[int]ctScript{0: {Lines: 70000, Code: 0}}},
+		{Nodes: 1, Count: 1, Stdin: true, RPC: "sync", Scripts: map[int]ctScript{0: {Lines: 70000, Code: 0}}},
 		// the caller goes away while the workload runs: it must still be removed
 		{Nodes: 1, Count: 1, Prior: 1, Cancel: "wait", Scripts: map[int]ctScript{0: {Lines: 2, Code: 3}}},
 		{Nodes: 1, Count: 1, Cancel: "logs", Scripts: map[int]ctScript{0: {Lines: 1, Code: 0}}},
@@ -341,11 +375,19 @@ func genLambda(t *testing.T, out *hx.Out, budget int) {
 		sh := lambdaShape{Nodes: r.Range(1, 2), Count: r.Range(1, 3), Prior: r.Intn(2), Scripts: map[int]ctScript{}}
 		if r.Chance(25) {
 			sh.Stdin, sh.Count = true, 1
+			sh.StdinOpen = r.Chance(50)
+			if r.Chance(30) {
+				sh.RPC = "sync"
+			}
 		}
 		for i := 0; i < sh.Count; i++ {
 			sh.Scripts[i] = genScript(r, sh.Stdin)
 		}
-		if sh.Count == 1 && !sh.Scripts[0].StartFail && r.Chance(25) {
+		if sh.Count == 1 && !sh.Scripts[0].StartFail && sh.RPC == "" && r.Chance(15) {
+			sc := sh.Scripts[0]
+			sc.WaitDelayMs = 1100
+			sh.Scripts[0], sh.DeadlineMs = sc, 700
+		} else if sh.Count == 1 && !sh.Scripts[0].StartFail && sh.RPC == "" && r.Chance(25) {
 			sh.Cancel = hx.Pick(r, "wait", "logs")
 		} else if !sh.Stdin && r.Chance(30) {
 			sh.RPC = hx.Pick(r, "sync", "sync", "async")
